@@ -63,7 +63,7 @@ JudgeGtEq(e) == Tag(e.equal = (e.limb = -1), "Inv.PairingValueCompare")
 
 (* mechanisms (not verdicts): point parsing reports malformed input, validity check *)
 JudgeG1Parse(e) ==
-  Tag(e.enc = "bitflip" \/ e.err = (e.enc \in {"truncated", "offcurve"}), "Parse.err:" \o e.enc) \o
+  Tag(e.enc = "bitflip" \/ e.err = (e.enc \in {"truncated", "offcurve", "nonreduced"}), "Parse.err:" \o e.enc) \o
   Tag(e.enc = "offcurve" => ~e.isValid, "Parse.isValid:" \o e.enc)
 
 Judge(e) ==
